@@ -188,9 +188,20 @@ def optional_uses(ctx: Ctx, q):
                 break
             cur = p
         if not guarded:
-            # a local rebound through a guarded expression: text = x.text if x.text is not None else ""  (handled above);
-            # assignment of the raw Optional to a local is fine if every use of that local is guarded - keep it simple: report
-            pass
+            # `v = x.text` immediately followed by `if v is None: v = <a constant that is not None>`: the local is normalised
+            # before anything else can read it
+            st = parents.get(id(n))
+            if isinstance(st, ast.Assign) and st.value is n and len(st.targets) == 1 and isinstance(st.targets[0], ast.Name):
+                v = st.targets[0].id
+                blk = parents.get(id(st))
+                for fld in ("body", "orelse", "finalbody"):
+                    lst = getattr(blk, fld, None)
+                    if isinstance(lst, list) and st in lst:
+                        i = lst.index(st)
+                        nxt = lst[i + 1] if i + 1 < len(lst) else None
+                        if (isinstance(nxt, ast.If) and norm(nxt.test) == "%s is None" % v and not nxt.orelse and len(nxt.body) == 1 and isinstance(nxt.body[0], ast.Assign)
+                                and norm(nxt.body[0].targets[0]) == v and isinstance(nxt.body[0].value, ast.Constant) and nxt.body[0].value.value is not None):
+                            guarded, how = True, "local `%s` replaced by %s when None, in the next statement" % (v, norm(nxt.body[0].value))
         out.append((n, guarded, how))
     return out
 
@@ -306,9 +317,28 @@ def c02_r5(ctx: Ctx, rule):
         for k in c.keywords:
             if k.arg == "nsmap":
                 nsmaps.add(norm(k.value))
+    from ..inline import inlined_function
+    inl = inlined_function(ctx, q)
+
+    def fresh_map(name, seen=()):
+        if name in seen:
+            return False
+        defs = all_assignments(inl.node, name)
+        if not defs:
+            return False
+        for d in defs:
+            if d is None:
+                return False
+            if isinstance(d, (ast.Dict, ast.DictComp)) or (isinstance(d, ast.Call) and call_name(d) in ("dict", "copy", "deepcopy")):
+                continue
+            # built in a private helper (inlined: its local map is copied into this name)
+            if isinstance(d, ast.Name) and fresh_map(d.id, seen + (name,)):
+                continue
+            return False
+        return True
+
     for name in sorted(nsmaps):
-        defs = all_assignments(fi.node, name)
-        fresh = bool(defs) and all(d is not None and (isinstance(d, (ast.Dict, ast.DictComp)) or (isinstance(d, ast.Call) and (call_name(d) in ("dict", "copy", "deepcopy")))) for d in defs)
+        fresh = fresh_map(name)
         if name in fi.params:
             # a map handed in by the caller is shared unless every path rebinds it to a copy before it is written to
             fresh = False
@@ -601,11 +631,16 @@ def xsi_type_not_overridden(ctx: Ctx, rule):
             continue
         f2 = ctx.fn(q2)
         for n in walk_function(f2.node):
-            if not isinstance(n, ast.If):
+            # a decision that mentions "no xsi:type yet": the test of an if / conditional expression, or the expression a
+            # predicate helper returns
+            if isinstance(n, (ast.If, ast.IfExp, ast.While)):
+                test = n.test
+            elif isinstance(n, ast.Return) and isinstance(n.value, (ast.BoolOp, ast.UnaryOp)):
+                test = n.value
+            else:
                 continue
-            assigns_type = any(isinstance(a, ast.Assign) and any(isinstance(t, ast.Name) and "xsd_type" in t.id for t in a.targets) for b in n.body for a in ast.walk(b))
             leaves = {}
-            _bool_leaves(n.test, leaves)
+            _bool_leaves(test, leaves)
             guard = None
             for txt, e in leaves.items():
                 if isinstance(e, ast.Compare) and len(e.ops) == 1 and isinstance(e.ops[0], ast.NotIn) and isinstance(e.comparators[0], ast.Attribute) and e.comparators[0].attr == "attrib":
@@ -615,20 +650,24 @@ def xsi_type_not_overridden(ctx: Ctx, rule):
                         k = None
                     if isinstance(k, str) and k.endswith("}type"):
                         guard = txt
-            if not assigns_type or guard is None or len(leaves) > 14:
+            if guard is None or len(leaves) < 2 or len(leaves) > 14:
                 continue
             n_blocks += 1
             names = sorted(leaves)
-            bad_env = None
+            bad_pos = bad_neg = None
             for bits in range(1 << len(names)):
                 env = {nm: bool(bits >> i & 1) for i, nm in enumerate(names)}
-                if _bool_eval(n.test, env) and not env[guard]:
-                    bad_env = env
-                    break
-            res.ob("%s: the type-inference condition (%d atoms) implies `%s`: %s" % (short(q2), len(names), guard[:50], bad_env is None))
-            if bad_env is not None:
-                on = [k[:30] for k, v in bad_env.items() if v]
-                res.fail(rule.id, "inference-overrides-explicit-type", ctx.loc(q2, n.test),
+                val = _bool_eval(test, env)
+                if val and not env[guard] and bad_pos is None:
+                    bad_pos = env
+                if not val and not env[guard] and bad_neg is None:
+                    bad_neg = env
+            # `if C: infer` needs C => guard; `if not C': continue` (then infer) needs not C' => guard: one of the two holds
+            okf = bad_pos is None or bad_neg is None
+            res.ob("%s: the decision `%s...` (%d atoms) or its negation implies `%s`: %s" % (short(q2), norm(test)[:40], len(names), guard[:50], okf))
+            if not okf:
+                on = [k[:30] for k, v in bad_pos.items() if v]
+                res.fail(rule.id, "inference-overrides-explicit-type", ctx.loc(q2, test),
                          "the xsi:type inference block can be entered although an xsi:type is already set (e.g. when %s)" % " and ".join(on)[:120],
                          "force_types=True: a qualified-name value keeps its text ex:Report but its xsi:type xsd:QName is overwritten by xsd:anyURI: a reader recovers the URI 'ex:Report'")
     if not n_blocks:
@@ -761,29 +800,10 @@ RULES.setdefault("C11", []).append(Rule("C11.R16", "one prov:type value is consu
 
 # ------------------------------------------------------------------------------------------ C11.R17: JSON membership expansion and Literal(langtag, datatype)
 def c11_r17(ctx: Ctx, rule):
-    """(a) PROV-JSON lets one hadMember list several entities; the reader makes one membership per entity: the first from values[0],
-    the others from values[1:] - the extra-members slice starts at 1.
-    (b) Literal.__init__: a language-tagged literal is a prov:InternationalizedString: under `langtag is not None`, the branch that
+    """(The membership clause that used to live here is decided by C11.R18, structurally.)
+    Literal.__init__: a language-tagged literal is a prov:InternationalizedString: under `langtag is not None`, the branch that
     overrides a foreign datatype is guarded by `datatype != <InternationalizedString>`."""
     res = RuleResult()
-    q0 = JS + ".decode_json_container"
-    found = False
-    for q in ctx.helper_closure(q0):
-        if not q.startswith(JS + "."):
-            continue
-        f = ctx.fn(q)
-        for a in walk_function(f.node):
-            if isinstance(a, ast.Assign) and len(a.targets) == 1 and isinstance(a.targets[0], ast.Name) and "member" in a.targets[0].id and isinstance(a.value, ast.Subscript) and isinstance(a.value.slice, ast.Slice):
-                found = True
-                sl = a.value.slice
-                lo = sl.lower.value if isinstance(sl.lower, ast.Constant) else "?"
-                okm = lo == 1 and sl.upper is None and sl.step is None
-                res.ob("%s: the extra members are %s: everything after the first: %s" % (short(q), norm(a.value), okm))
-                if not okm:
-                    res.fail(rule.id, "membership-extra-members::%s" % norm(a.value), ctx.loc(q, a), "the members beyond the first are taken as %s" % norm(a.value),
-                             "hadMember with 'prov:entity': [e1, e2, e3] loads without e2")
-    if not found:
-        raise AnalysisError("the multiple-entity membership expansion of the JSON reader was not found")
     lq = ctx.p.lookup_method(M + ".Literal", "__init__")
     lf = ctx.fn(lq)
     istr = ctx.prov_ns()
@@ -811,8 +831,160 @@ def c11_r17(ctx: Ctx, rule):
     return res
 
 
-RULES.setdefault("C11", []).append(Rule("C11.R17", "multi-entity memberships expand from values[1:]; a language-tagged literal's foreign datatype is overridden (guard `!=`)", 2, c11_r17, "F-PATH",
+RULES.setdefault("C11", []).append(Rule("C11.R17", "a language-tagged literal's foreign datatype is overridden (guard `!=`)", 1, c11_r17, "F-PATH",
                                         "foreign JSON forms load completely and re-serialise to the same document"))
+
+
+# ------------------------------------------------------------------------------------------ C11.R18: several entities in one membership
+def _is_prov_entity(ctx, q, e):
+    try:
+        v = ctx.eval_in(q, e)
+    except AnalysisError:
+        return False
+    return isinstance(v, QN) and v.local == "entity" and v.uri.endswith("prov#entity")
+
+
+def _record_factories(ctx):
+    """Names of the ProvBundle methods that make a record (they call self.new_record), plus new_record itself."""
+    out = {"new_record"}
+    for cq in (M + ".ProvBundle", M + ".ProvDocument"):
+        ci = ctx.p.classes.get(cq)
+        if ci is None:
+            continue
+        for name, mq in ci.methods.items():
+            fi = ctx.p.functions.get(mq)
+            if fi is not None and any(isinstance(c.func, ast.Attribute) and c.func.attr == "new_record" and norm(c.func.value) == "self" for c in calls_in(fi.node)):
+                out.add(name)
+    return out
+
+
+def _single_value_guard_has_bypass(ctx, res):
+    """ProvRecord.add_attributes refuses a second value for a PROV attribute.  True when that refusal is conditional on something
+    other than the attribute itself (today: `not is_collection`, i.e. prov:collection among the incoming names)."""
+    aq = ctx.p.lookup_method(M + ".ProvRecord", "add_attributes")
+    from ..inline import inlined_function
+    f = inlined_function(ctx, aq, exclude=frozenset({"_auto_literal_conversion"}))
+    params = {a.arg for a in f.node.args.args}
+    guards = []
+    for n in walk_function(f.node):
+        if isinstance(n, ast.If) and any(isinstance(x, ast.Raise) for b in n.body for x in ast.walk(b)):
+            def big_table(e):
+                try:
+                    v = ctx.eval_in(aq, e)
+                except AnalysisError:
+                    return False
+                return isinstance(v, (set, frozenset, list, tuple, dict)) and len(v) >= 20 and any(isinstance(x, QN) and x.local == "entity" for x in v)
+            # `attr in <the table of all PROV attribute names>` (folded; 27 names today)
+            if any(isinstance(c, ast.Compare) and len(c.ops) == 1 and isinstance(c.ops[0], ast.In) and big_table(c.comparators[0]) for c in ast.walk(n.test)):
+                guards.append(n)
+    if not guards:
+        res.ob("ProvRecord.add_attributes: no refusal of a second value for a PROV attribute was found: several values are admitted")
+        return True
+    params = {a.arg for a in f.node.args.args} - {"self"}
+    per_pair = set()
+    for lp in walk_function(f.node):
+        if isinstance(lp, ast.For) and any(isinstance(x, ast.Name) and x.id in params for x in ast.walk(lp.iter)):
+            per_pair |= {x.id for x in ast.walk(lp.target) if isinstance(x, ast.Name)}
+            per_pair |= {x.id for b0 in lp.body for st in ast.walk(b0) if isinstance(st, (ast.Assign, ast.AugAssign, ast.NamedExpr)) for tg in (st.targets if isinstance(st, ast.Assign) else [st.target]) for x in ast.walk(tg) if isinstance(x, ast.Name)}
+    assigned = {x.id for st in walk_function(f.node) if isinstance(st, (ast.Assign, ast.AugAssign, ast.NamedExpr)) for tg in (st.targets if isinstance(st, ast.Assign) else [st.target]) for x in ast.walk(tg) if isinstance(x, ast.Name)}
+    for g in guards:
+        names = {x.id for x in ast.walk(g.test) if isinstance(x, ast.Name)}
+        # what is computed per pair inside the loop over the incoming list is about the attribute at hand; a local computed once,
+        # before that loop, from the list as a whole lifts the refusal for some records
+        lifted = (names & assigned) - per_pair
+        if lifted:
+            res.ob("ProvRecord.add_attributes: the refusal of a second value (`%s`) is lifted by %s, computed once from the whole incoming list" % (norm(g.test)[:70], sorted(lifted)))
+            return True
+    res.ob("ProvRecord.add_attributes: a second value for a PROV attribute is always refused")
+    return False
+
+
+def c11_r18(ctx: Ctx, rule):
+    """PROV-JSON and PROV-XML both let one hadMember list several entities.  The JSON, PROV-N and RDF writers print ONE value per
+    PROV attribute (first() of the value set), so a reader must not build a membership holding several: it makes one membership
+    per entity (or refuses the input).  Decided per reader, on the reader with its private helpers inlined: there is a loop over
+    values selected by a comparison with prov:entity whose body makes a record, or a raise under a test of those values.  Vacuous
+    when the model itself refuses a second value for every record kind."""
+    from ..inline import inlined_function
+    res = RuleResult()
+    bypass = _single_value_guard_has_bypass(ctx, res)
+    factories = _record_factories(ctx)
+    readers = [JS + ".decode_json_container", XM + ".ProvXMLSerializer.deserialize_subtree"]
+    for rq in readers:
+        if rq not in ctx.p.functions:
+            raise AnalysisError("anchor vanished: function %s" % rq)
+        f = inlined_function(ctx, rq)
+        # names holding values selected by a comparison with prov:entity
+        tainted = set()
+        def entity_test(t):
+            return any(isinstance(c, ast.Compare) and len(c.ops) == 1 and isinstance(c.ops[0], (ast.Eq, ast.NotEq, ast.Is, ast.In)) and any(_is_prov_entity(ctx, rq, sd) for sd in [c.left] + c.comparators) for c in ast.walk(t))
+        for n in walk_function(f.node):
+            if isinstance(n, ast.If) and entity_test(n.test):
+                for b in n.body:
+                    for a in ast.walk(b):
+                        if isinstance(a, ast.Assign):
+                            tainted |= {x.id for tg in a.targets for x in ast.walk(tg) if isinstance(x, ast.Name)}
+                        elif isinstance(a, ast.Expr) and isinstance(a.value, ast.Call) and isinstance(a.value.func, ast.Attribute) and a.value.func.attr in ("append", "extend", "add") and isinstance(a.value.func.value, ast.Name):
+                            tainted.add(a.value.func.value.id)
+            if isinstance(n, ast.Assign) and isinstance(n.value, (ast.ListComp, ast.SetComp, ast.GeneratorExp)) and any(entity_test(i) for g in n.value.generators for i in g.ifs):
+                tainted |= {x.id for tg in n.targets for x in ast.walk(tg) if isinstance(x, ast.Name)}
+        changed = True
+        while changed:
+            changed = False
+            for a in walk_function(f.node):
+                if isinstance(a, ast.Assign) and any(isinstance(x, ast.Name) and x.id in tainted for x in ast.walk(a.value)):
+                    new = {x.id for tg in a.targets for x in ast.walk(tg) if isinstance(x, ast.Name)} - tainted
+                    # only whole-value flows: copies, slices, list()/tuple() of a selected list
+                    v = a.value
+                    while isinstance(v, ast.Subscript) and isinstance(v.slice, ast.Slice):
+                        v = v.value
+                    if isinstance(v, ast.Call) and call_name(v) in ("list", "tuple", "sorted", "iter") and v.args:
+                        v = v.args[0]
+                    if new and isinstance(v, ast.Name) and v.id in tainted:
+                        tainted |= new
+                        changed = True
+        expands, refuses, slices = [], [], []
+        for n in walk_function(f.node):
+            if isinstance(n, ast.For):
+                its = [n.iter.body, n.iter.orelse] if isinstance(n.iter, ast.IfExp) else [n.iter]
+                for it in its:
+                    while isinstance(it, ast.Subscript) and isinstance(it.slice, ast.Slice):
+                        slices.append((n, it))
+                        it = it.value
+                    if isinstance(it, ast.Call) and call_name(it) in ("list", "tuple", "iter", "reversed") and it.args:
+                        it = it.args[0]
+                    if isinstance(it, ast.Name) and it.id in tainted:
+                        made = [c for b in n.body for c in ast.walk(b) if isinstance(c, ast.Call) and isinstance(c.func, ast.Attribute) and c.func.attr in factories]
+                        if made:
+                            expands.append((n, made, it.id))
+            if isinstance(n, ast.If) and any(isinstance(x, ast.Name) and x.id in tainted for x in ast.walk(n.test)) and any(isinstance(x, ast.Raise) for b in n.body for x in b and [b] or []):
+                refuses.append(n)
+        # the rest-of-the-members slices feeding an expansion start right after the first member
+        for n, made, root_id in expands:
+            for a in walk_function(f.node):
+                if isinstance(a, ast.Assign) and any(isinstance(tg, ast.Name) and tg.id == root_id for tg in a.targets) and isinstance(a.value, ast.Subscript) and isinstance(a.value.slice, ast.Slice):
+                    slices.append((a, a.value))
+        for where, sl in slices:
+            if where in [e[0] for e in expands] or isinstance(where, ast.Assign):
+                lo = sl.slice.lower.value if isinstance(sl.slice.lower, ast.Constant) else ("?" if sl.slice.lower is not None else 0)
+                oks = lo == 1 and sl.slice.upper is None and sl.slice.step is None
+                res.ob("%s: the members beyond the first are %s: everything after the first: %s" % (short(rq), norm(sl), oks))
+                if not oks:
+                    res.fail(rule.id, "membership-extra-members::%s" % norm(sl), ctx.loc(rq, where), "the members beyond the first are taken as %s" % norm(sl),
+                             "hadMember listing e1, e2, e3 loads without one of them")
+        res.ob("%s: names holding the prov:entity values of one record: %s; expansion loops making records: %d; refusals: %d" % (short(rq), sorted(tainted), len(expands), len(refuses)))
+        if not expands and not refuses:
+            if bypass:
+                res.fail(rule.id, "multi-entity-membership-not-expanded::%s" % rq, ctx.loc(rq, f.node),
+                         "%s hands a membership listing several entities to the model as ONE record (add_attributes lifts its single-value refusal when prov:collection is among the names); the JSON, PROV-N and RDF writers print first() of the value set" % short(rq),
+                         "<prov:hadMember> with a collection and entities e1, e2, e3: loads as one record; serialize(format='json') writes one member, which one depends on set order; reload gives another document")
+            else:
+                res.ob("%s: no expansion, but the model refuses a second value: the input is rejected" % short(rq))
+    return res
+
+
+RULES.setdefault("C11", []).append(Rule("C11.R18", "a membership listing several entities becomes one membership per entity in every reader (or is refused)", 2, c11_r18, "F-PATH",
+                                        "text -> d -> another format -> d' keeps every member; no writer meets a PROV attribute with several values"))
 
 
 # ------------------------------------------------------------------------------------------ C07.R14: RDF container scoping and wildcard removal
